@@ -134,6 +134,14 @@ namespace awkward {
       }
     }
     ContentPtrVec contents = array_.get()->contents();
+    for (size_t j = 0;  j < cols;  j++) {
+      if (!(0 <= at_  &&  at_ < contents[j].get()->length())) {
+        throw std::invalid_argument(
+          std::string("Record field ") + util::quote(keys.get()->at(j))
+          + std::string(" is too short for position ") + std::to_string(at_)
+          + FILENAME(__LINE__));
+      }
+    }
     builder.beginrecord();
     for (size_t j = 0;  j < cols;  j++) {
       builder.field(keys.get()->at(j).c_str());
